@@ -5,3 +5,4 @@ pub mod c12;
 pub mod c11;
 pub mod c06;
 pub mod c08;
+pub mod c01;
